@@ -53,9 +53,19 @@
              eval_resample_incl : the same with  incl (times p) T
              times_resample times_padd times_scale times_shift times_neg
              eval_padd          : times p = times q -> eval (padd p q) t == eval p t + eval q t
-             eval_concat_left / eval_concat_right / eval_concat_gap
-             eval_cut_left eval_cut_right eval_cut
-     area:   area_scale area_neg area_shift area_app area_cut
+             eval_concat_left   : sorted (p ++ (a,v)::q) -> t <= a -> eval (p ++ (a,v)::q) t == eval (p ++ [(a,v)]) t
+             eval_concat_right  : sorted (p ++ (a,v)::q) -> a <= t -> eval (p ++ (a,v)::q) t == eval ((a,v)::q) t
+             eval_concat_gap    : tlast p < tfirst q, both zero at the junction: eval (p++q) = eval p + eval q
+             eval_cut_left      : (t <= c -> eval (cut_left c p) t == eval p t) /\ (c < t -> ... == 0)
+             eval_cut_right     : (c <= t -> eval (cut_right c p) t == eval p t) /\ (t < c -> ... == 0)
+             eval_cut           : ~ t == c -> eval (cut_left c p) t + eval (cut_right c p) t == eval p t
+             sorted_cut_left sorted_cut_right
+             eval_single_at eval_single_off eval_zero_on
+     n-ary:  zero_on T, psum_on T ps (fold of padd over resample T p), sum_eval ps t,
+             times_psum_on, eval_psum_on : eval (psum_on T ps) t == sum_eval ps t
+     area:   area_scale area_neg area_shift area_padd area_app area_cut
+     tactics: qb (destruct every Qltb/Qle_bool/Qeq_bool of the goal into Props),
+              case_ltb a b E / case_leb a b E / case_eqb a b E
 *)
 From Coq Require Import ZArith QArith Qabs Lia Lqa List Bool Setoid Morphisms.
 From PV Require Import Base.QUtil.
@@ -1004,4 +1014,281 @@ Proof.
     change ((t1, v1) :: r ++ (a, v) :: q) with (((t1, v1) :: r) ++ (a, v) :: q).
     change ((t1, v1) :: r ++ [(a, v)]) with (((t1, v1) :: r) ++ [(a, v)]).
     rewrite (IH a v q). ring.
+Qed.
+
+(* ------------------------------------------------------------------------------------------ *)
+(* concatenation *)
+
+(* two pieces sharing the corner (a, v): left of a the whole is the left piece ... *)
+Lemma eval_concat_left p : forall a v q t,
+  sorted_strict (times (p ++ (a, v) :: q)) -> t <= a ->
+  eval (p ++ (a, v) :: q) t == eval (p ++ [(a, v)]) t.
+Proof.
+  induction p as [|[t0 v0] p IH]; intros a v q t Hs Ht.
+  - cbn [app] in *. destruct (Qlt_le_dec t a) as [H|H].
+    + rewrite !eval_outside_left by (cbn [tfirst]; exact H). reflexivity.
+    + assert (E : t == a) by lra. rewrite E.
+      rewrite (eval_at_first ((a, v) :: q) Hs). rewrite eval_single. qb; [reflexivity|].
+      exfalso. apply E0. reflexivity.
+  - destruct p as [|[t1 v1] p].
+    + cbn [app] in *. rewrite !eval_cons2. qb; try reflexivity. lra.
+    + change (((t0, v0) :: (t1, v1) :: p) ++ (a, v) :: q)
+        with ((t0, v0) :: (t1, v1) :: (p ++ (a, v) :: q)) in *.
+      change (((t0, v0) :: (t1, v1) :: p) ++ [(a, v)])
+        with ((t0, v0) :: (t1, v1) :: (p ++ [(a, v)])).
+      rewrite !eval_cons2. qb; try reflexivity.
+      apply (IH a v q t); [apply (sorted_times_tail _ _ Hs)|exact Ht].
+Qed.
+
+(* ... and right of a it is the right piece *)
+Lemma eval_concat_right p : forall a v q t,
+  sorted_strict (times (p ++ (a, v) :: q)) -> a <= t ->
+  eval (p ++ (a, v) :: q) t == eval ((a, v) :: q) t.
+Proof.
+  induction p as [|[t0 v0] p IH]; intros a v q t Hs Ht; [reflexivity|].
+  destruct p as [|[t1 v1] p].
+  - cbn [app] in *. apply eval_tail; assumption.
+  - change (((t0, v0) :: (t1, v1) :: p) ++ (a, v) :: q)
+      with ((t0, v0) :: (t1, v1) :: (p ++ (a, v) :: q)) in *.
+    assert (Hb : t1 <= a).
+    { apply (sorted_hd_le (times ((t1, v1) :: p ++ (a, v) :: q)) (sorted_times_tail _ _ Hs) a).
+      unfold times. rewrite map_cons, map_app. right. apply in_or_app. right. left. reflexivity. }
+    rewrite eval_tail; [|exact Hs|lra].
+    apply (IH a v q t); [apply (sorted_times_tail _ _ Hs)|exact Ht].
+Qed.
+
+Lemma tlast_ge_times (p : pwl) : sorted_strict (times p) -> forall x, In x (times p) -> x <= tlast p.
+Proof. intros Hs x Hx. rewrite tlast_times. apply sorted_le_last; assumption. Qed.
+
+(* two pieces separated by a gap (or touching), both zero at the junction: the sum *)
+Lemma eval_concat_gap p : forall q t,
+  sorted_strict (times p) -> sorted_strict (times q) ->
+  p <> [] -> q <> [] -> tlast p < tfirst q -> vlast p == 0 -> vfirst q == 0 ->
+  eval (p ++ q) t == eval p t + eval q t.
+Proof.
+  induction p as [|[t0 v0] p IH]; intros q t Hp Hq Hpn Hqn Hgap Hvl Hvf; [congruence|].
+  destruct q as [|[b w] q]; [congruence|]. cbn [tfirst vfirst] in *.
+  assert (Hqb : forall u, u <= b -> eval ((b, w) :: q) u == 0).
+  { intros u Hu. destruct (Qlt_le_dec u b) as [H|H].
+    - apply eval_outside_left. exact H.
+    - assert (E : u == b) by lra. rewrite E.
+      rewrite (eval_at_first ((b, w) :: q) Hq). exact Hvf. }
+  destruct p as [|[t1 v1] p].
+  - cbn in Hgap, Hvl. cbn [app]. rewrite eval_cons2, eval_single.
+    qb; try lra.
+    + rewrite Hqb by lra. ring.
+    + rewrite Hqb by lra. unfold interp, slope. rewrite Hvl, Hvf. ring.
+    + rewrite Hqb by lra. unfold interp, slope. rewrite Hvl, Hvf. ring.
+  - rewrite tlast_cons2 in Hgap. rewrite vlast_cons2 in Hvl.
+    change (((t0, v0) :: (t1, v1) :: p) ++ (b, w) :: q)
+      with ((t0, v0) :: (t1, v1) :: (p ++ (b, w) :: q)).
+    rewrite !eval_cons2.
+    assert (H1b : t1 < b).
+    { pose proof (tlast_ge_times ((t1, v1) :: p) (sorted_times_tail _ _ Hp) t1 (or_introl eq_refl)).
+      lra. }
+    pose proof Hp as Hp'. destruct Hp' as [H01 _]. cbn [fst] in H01.
+    qb.
+    + rewrite Hqb by lra. ring.
+    + rewrite Hqb by lra. ring.
+    + change ((t1, v1) :: p ++ (b, w) :: q) with (((t1, v1) :: p) ++ (b, w) :: q).
+      apply IH; try assumption; try discriminate.
+      apply (sorted_times_tail _ _ Hp).
+Qed.
+
+(* ------------------------------------------------------------------------------------------ *)
+(* cuts *)
+
+Lemma cut_left_head c t1 v1 r : t1 <= c -> exists s, cut_left c ((t1, v1) :: r) = (t1, v1) :: s.
+Proof.
+  intro H. cbn [cut_left]. qb; try lra.
+  - exists []. reflexivity.
+  - destruct r as [|[t2 v2] r]; [exists []; reflexivity|].
+    qb; eexists; reflexivity.
+Qed.
+
+Lemma cut_left_cons2 c t0 v0 t1 v1 r :
+  cut_left c ((t0, v0) :: (t1, v1) :: r) =
+  if Qltb c t0 then []
+  else if Qeq_bool c t0 then [(t0, v0)]
+  else if Qle_bool t1 c then (t0, v0) :: cut_left c ((t1, v1) :: r)
+  else [(t0, v0); (c, interp t0 v0 t1 v1 c)].
+Proof. reflexivity. Qed.
+
+Lemma cut_right_cons2 c t0 v0 t1 v1 r :
+  cut_right c ((t0, v0) :: (t1, v1) :: r) =
+  if Qle_bool c t0 then (t0, v0) :: (t1, v1) :: r
+  else if Qle_bool t1 c then cut_right c ((t1, v1) :: r)
+  else (c, interp t0 v0 t1 v1 c) :: (t1, v1) :: r.
+Proof. reflexivity. Qed.
+
+Lemma interp_cut_l t0 v0 t1 v1 c t : t0 < c -> c < t1 ->
+  interp t0 v0 c (interp t0 v0 t1 v1 c) t == interp t0 v0 t1 v1 t.
+Proof. intros. unfold interp, slope. field. split; lra. Qed.
+
+Lemma interp_cut_r t0 v0 t1 v1 c t : t0 < c -> c < t1 ->
+  interp c (interp t0 v0 t1 v1 c) t1 v1 t == interp t0 v0 t1 v1 t.
+Proof. intros. unfold interp, slope. field. split; lra. Qed.
+
+Ltac case_ltb a b E := destruct (Qltb a b) eqn:E; [apply Qltb_lt in E | apply Qltb_ge in E].
+Ltac case_leb a b E := destruct (Qle_bool a b) eqn:E; [apply Qle_bool_iff in E | apply Qleb_gt in E].
+Ltac case_eqb a b E := destruct (Qeq_bool a b) eqn:E; [apply Qeq_bool_iff in E | apply Qeqb_neq in E].
+
+Lemma eval_single_at t0 v0 t : t == t0 -> eval [(t0, v0)] t == v0.
+Proof. intro H. rewrite eval_single. case_eqb t t0 E; [reflexivity|contradiction]. Qed.
+
+Lemma eval_single_off t0 v0 t : ~ t == t0 -> eval [(t0, v0)] t == 0.
+Proof. intro H. rewrite eval_single. case_eqb t t0 E; [contradiction|reflexivity]. Qed.
+
+Lemma eval_cut_left c p : sorted_strict (times p) -> forall t,
+  (t <= c -> eval (cut_left c p) t == eval p t) /\ (c < t -> eval (cut_left c p) t == 0).
+Proof.
+  induction p as [|[t0 v0] r IH]; intros Hs t; [split; reflexivity|].
+  destruct r as [|[t1 v1] r].
+  - cbn [cut_left]. case_ltb c t0 E0; [|case_eqb c t0 E1]; split; intro Ht; try reflexivity.
+    + symmetry. apply eval_outside_left. cbn [tfirst]. lra.
+    + apply eval_single_off. lra.
+    + apply eval_single_off. lra.
+  - pose proof Hs as Hs'. destruct Hs' as [H01 Hst]. cbn [fst] in H01.
+    rewrite cut_left_cons2. case_ltb c t0 E0; [|case_eqb c t0 E1; [|case_leb t1 c E2]].
+    + split; intro Ht; [|reflexivity]. symmetry. apply eval_outside_left. cbn [tfirst]. lra.
+    + split; intro Ht.
+      * destruct (Qlt_le_dec t t0) as [H|H].
+        -- rewrite !eval_outside_left by (cbn [tfirst]; exact H). reflexivity.
+        -- assert (Et : t == t0) by lra. rewrite Et.
+           rewrite (eval_at_first ((t0, v0) :: (t1, v1) :: r) Hs).
+           apply eval_single_at. reflexivity.
+      * apply eval_single_off. lra.
+    + destruct (cut_left_head c t1 v1 r E2) as [s Es]. rewrite Es.
+      destruct (IH Hst t) as [IH1 IH2]. rewrite Es in IH1, IH2.
+      rewrite !eval_cons2. split; intro Ht.
+      * case_ltb t t0 E3; [reflexivity|]. case_leb t t1 E4; [reflexivity|]. apply IH1. exact Ht.
+      * case_ltb t t0 E3; [lra|]. case_leb t t1 E4; [lra|]. apply IH2. exact Ht.
+    + assert (H0c : t0 < c) by lra.
+      split; intro Ht.
+      * rewrite !eval_cons2. case_ltb t t0 E3; [reflexivity|].
+        case_leb t c E4; [|lra]. case_leb t t1 E5; [|lra].
+        apply interp_cut_l; assumption.
+      * rewrite eval_cons2. case_ltb t t0 E3; [lra|]. case_leb t c E4; [lra|].
+        apply eval_single_off. lra.
+Qed.
+
+Lemma eval_cut_right c p : sorted_strict (times p) -> forall t,
+  (c <= t -> eval (cut_right c p) t == eval p t) /\ (t < c -> eval (cut_right c p) t == 0).
+Proof.
+  induction p as [|[t0 v0] r IH]; intros Hs t; [split; reflexivity|].
+  destruct r as [|[t1 v1] r].
+  - cbn [cut_right]. case_leb c t0 E0; split; intro Ht; try reflexivity.
+    + apply eval_outside_left. cbn [tfirst]. lra.
+    + symmetry. apply eval_single_off. lra.
+  - pose proof Hs as Hs'. destruct Hs' as [H01 Hst]. cbn [fst] in H01.
+    rewrite cut_right_cons2. case_leb c t0 E0; [|case_leb t1 c E1].
+    + split; intro Ht; [reflexivity|]. apply eval_outside_left. cbn [tfirst]. lra.
+    + destruct (IH Hst t) as [IH1 IH2]. split; intro Ht.
+      * rewrite IH1 by exact Ht. symmetry. apply eval_tail; [exact Hs|lra].
+      * apply IH2. exact Ht.
+    + split; intro Ht.
+      * rewrite !eval_cons2. case_ltb t c E3; [lra|]. case_ltb t t0 E4; [lra|].
+        case_leb t t1 E5; [|reflexivity].
+        apply interp_cut_r; lra.
+      * apply eval_outside_left. cbn [tfirst]. exact Ht.
+Qed.
+
+Theorem eval_cut c p t : sorted_strict (times p) -> ~ t == c ->
+  eval (cut_left c p) t + eval (cut_right c p) t == eval p t.
+Proof.
+  intros Hs Hn. destruct (eval_cut_left c p Hs t) as [L1 L2].
+  destruct (eval_cut_right c p Hs t) as [R1 R2].
+  destruct (Qlt_le_dec t c) as [H|H].
+  - rewrite L1, R2 by lra. ring.
+  - rewrite L2, R1 by lra. ring.
+Qed.
+
+Theorem area_cut c p : sorted_strict (times p) ->
+  area (cut_left c p) + area (cut_right c p) == area p.
+Proof.
+  induction p as [|[t0 v0] r IH]; intros Hs; [cbn; ring|].
+  destruct r as [|[t1 v1] r].
+  - cbn [cut_left cut_right]. case_ltb c t0 E0; [|case_eqb c t0 E1]; case_leb c t0 E2;
+      try lra; cbn; ring.
+  - pose proof Hs as Hs'. destruct Hs' as [H01 Hst]. cbn [fst] in H01.
+    rewrite cut_left_cons2, cut_right_cons2.
+    case_ltb c t0 E0; [|case_eqb c t0 E1; [|case_leb t1 c E2]]; case_leb c t0 E3; try lra.
+    + cbn [area]. ring.
+    + cbn [area]. ring.
+    + destruct (cut_left_head c t1 v1 r E2) as [s Es]. specialize (IH Hst).
+      rewrite Es in *. rewrite !area_cons2. rewrite <- IH. ring.
+    + case_leb t1 c E4; [lra|].
+      rewrite !area_cons2. cbn [area]. unfold interp, slope. field. lra.
+Qed.
+
+Lemma sorted_cut_right c p : sorted_strict (times p) -> sorted_strict (times (cut_right c p)).
+Proof.
+  induction p as [|[t0 v0] r IH]; intros Hs; [exact I|].
+  destruct r as [|[t1 v1] r].
+  - cbn [cut_right]. case_leb c t0 E0; [exact Hs|exact I].
+  - pose proof Hs as Hs'. destruct Hs' as [H01 Hst]. cbn [fst] in H01.
+    rewrite cut_right_cons2. case_leb c t0 E0; [exact Hs|]. case_leb t1 c E1.
+    + apply IH. exact Hst.
+    + split; [exact E1|exact Hst].
+Qed.
+
+Lemma sorted_cut_left c p : sorted_strict (times p) -> sorted_strict (times (cut_left c p)).
+Proof.
+  induction p as [|[t0 v0] r IH]; intros Hs; [exact I|].
+  destruct r as [|[t1 v1] r].
+  - cbn [cut_left]. case_ltb c t0 E0; [exact I|]. case_eqb c t0 E1; exact I.
+  - pose proof Hs as Hs'. destruct Hs' as [H01 Hst]. cbn [fst] in H01.
+    rewrite cut_left_cons2. case_ltb c t0 E0; [exact I|]. case_eqb c t0 E1; [exact I|].
+    case_leb t1 c E2.
+    + destruct (cut_left_head c t1 v1 r E2) as [s Es]. specialize (IH Hst). rewrite Es in *.
+      split; [exact H01|exact IH].
+    + split; [cbn [fst]; lra|exact I].
+Qed.
+
+(* n-ary pointwise sum on a common grid T: fold of padd over resampled inputs *)
+Definition zero_on (T : list Q) : pwl := tabulate (fun _ => 0) T.
+
+Definition psum_on (T : list Q) (ps : list pwl) : pwl :=
+  fold_right (fun p acc => padd (resample T p) acc) (zero_on T) ps.
+
+Definition sum_eval (ps : list pwl) (t : Q) : Q :=
+  fold_right (fun p acc => eval p t + acc) 0 ps.
+
+Lemma eval_zero_on T t : eval (zero_on T) t == 0.
+Proof.
+  unfold zero_on. induction T as [|a T IH]; [reflexivity|].
+  destruct T as [|b T].
+  - cbn [tabulate map]. rewrite eval_single. qb; reflexivity.
+  - change (tabulate (fun _ : Q => 0) (a :: b :: T))
+      with ((a, 0) :: (b, 0) :: tabulate (fun _ : Q => 0) T).
+    rewrite eval_cons2.
+    change ((b, 0) :: tabulate (fun _ : Q => 0) T) with (tabulate (fun _ : Q => 0) (b :: T)).
+    qb; [reflexivity|apply interp_const|exact IH].
+Qed.
+
+Lemma times_zero_on T : times (zero_on T) = T.
+Proof. apply times_tabulate. Qed.
+
+Lemma times_psum_on T ps : times (psum_on T ps) = T.
+Proof.
+  induction ps as [|p ps IH]; [apply times_zero_on|].
+  cbn [psum_on fold_right]. fold (psum_on T ps).
+  rewrite times_padd; rewrite times_resample; [reflexivity|symmetry; exact IH].
+Qed.
+
+(* the sum of resampled inputs is the pointwise sum, for any number of inputs *)
+Theorem eval_psum_on T ps :
+  sorted_strict T ->
+  (forall p, In p ps ->
+     sorted_strict (times p) /\ (forall c, In c (times p) -> InQ c T) /\
+     (vfirst p == 0 \/ tfirst p <= hd 0 T) /\ (vlast p == 0 \/ last T 0 <= tlast p)) ->
+  forall t, eval (psum_on T ps) t == sum_eval ps t.
+Proof.
+  intros HT. induction ps as [|p ps IH]; intros H t.
+  - cbn [psum_on sum_eval fold_right]. apply eval_zero_on.
+  - cbn [psum_on sum_eval fold_right]. fold (psum_on T ps). fold (sum_eval ps t).
+    rewrite eval_padd by (rewrite times_resample, times_psum_on; reflexivity).
+    destruct (H p (or_introl eq_refl)) as (H1 & H2 & H3 & H4).
+    rewrite eval_resample by assumption.
+    rewrite IH; [reflexivity|]. intros q Hq. apply H. right. exact Hq.
 Qed.
